@@ -70,6 +70,15 @@ pub mod parser {
             if padding == 0 {
                 return Err(RtcpParseError::InvalidPadding);
             }
+
+            // the padding is part of the packet but not of its fixed part
+            let required = P::MIN_PACKET_LEN + padding as usize;
+            if packet.len() < required {
+                return Err(RtcpParseError::Truncated {
+                    expected: required,
+                    actual: packet.len(),
+                });
+            }
         }
 
         Ok(())
